@@ -114,7 +114,7 @@ class Recorder:
             after = [list(r_) for r_ in self_._alm_matrix]
             sop_after = self_.sum_of_pairs(gap_weight=gw)
             rec.iters.append(dict(gw=gw, check=check, before=before, sop0=sop0, seen=seen, after=after, sop_after=sop_after,
-                                  n_idx=len(idx_list)))
+                                  n_idx=len(idx_list), scorer=self_.scorer, kind='c' if self_._sonars else 't'))
             return r
         mult.Multiple._iter = wrapped_iter
         return self
@@ -135,6 +135,19 @@ def sym_code(rows):
 
 def rows_line(rows):
     return ' / '.join(' '.join(map(str, r)) for r in rows)
+
+
+def scorer_tokens(scorer, mats, code):
+    """the entries of the scorer that sum_of_pairs reads on these matrices (pairs of symbols of one column), as `a:b:bits`"""
+    out = {}
+    for mat in mats:
+        for c in range(len(mat[0])):
+            col = [r[c] for r in mat if r[c] != 'X']
+            for a in col:
+                for b in col:
+                    if (a, b) not in out:
+                        out[a, b] = '%d:%d:%s' % (code[a], code[b], f2b(scorer[a, b]))
+    return ' '.join(out.values())
 
 
 def oracle_msa(msa, seqs_tokens):
@@ -166,6 +179,7 @@ def run_multiple(chk, want):
     drv = common.Driver()
     bad_merge, bad_iter, fails = [], [], []
     bad_prog, bad_split, bad_upd = [], [], []
+    bad_sop, nsop = [], 0
     nprog = nsplit = nupd = 0
     n = chk.n(1200, 24000)
     nmerge = 0
@@ -292,6 +306,48 @@ def run_multiple(chk, want):
             expect = itr['before'] if o == 'old' else cand
             if itr['after'] != expect or gw_used != itr['gw']:
                 bad_iter.append((seqs, itr['sop0'], sop1, gw_used, itr['gw'], o))
+            # the whole pass in the model: Lean sumOfPairs (score_profile over every column, the call's gap weight) of the saved
+            # matrix and of the candidate, bit for bit, then Lean iterPass == the matrix the real pass left
+            try:
+                coded, code = sym_code(itr['before'] + cand + itr['after'])
+                h = len(itr['before'])
+                o = drv.ask('iterpass|%s|%s %s|%s|%s|%s|%d' % (itr['kind'], f2b(-1.0), f2b(itr['gw']),
+                                                            scorer_tokens(itr['scorer'], [itr['before'], cand], code),
+                                                            rows_line(coded[:h]), rows_line(coded[h:2 * h]), itr['n_idx']))
+                nsop += 1
+                want_o = 'P %s %s | %s' % (f2b(itr['sop0']), f2b(sop1), rows_line(coded[2 * h:]))
+                if o != want_o:
+                    bad_sop.append((seqs, method, kw, log, itr['gw'], o[:160], want_o[:160]))
+            except Exception as ex:  # noqa
+                bad_sop.append((seqs, method, kw, log, 'tie raised %s: %s' % (type(ex).__name__, str(ex)[:80]), '', ''))
+        if want == 'C11' and it % 3 == 0:
+            # sum_of_pairs / score_profile on their own, both variants (with sonority profiles: calign; plain tokens: talign, where a
+            # symbol facing a gap costs gop), any gap weight and gap cost
+            try:
+                plain = rng.random() < 0.5
+                m2 = mult.Multiple(seqs)
+                m2.prog_align(**(dict(classes=False, sonar=False) if plain else {}))
+                gw2, gop2 = rng.choice([0.0, 0.5, 1.0, 1, 0.25, 2.0]), rng.choice([-1, -2, -0.5, 0, -3])
+                mat2 = [list(r) for r in m2._alm_matrix]
+                try:
+                    real = m2.sum_of_pairs(gap_weight=gw2, gop=gop2)
+                except ZeroDivisionError:
+                    real = None
+                if real is not None:
+                    coded, code = sym_code(mat2)
+                    o = drv.ask('sop|%s|%s %s|%s|%s' % ('c' if m2._sonars else 't', f2b(gop2), f2b(gw2), scorer_tokens(m2.scorer, [mat2], code),
+                                                     rows_line(coded)))
+                    nsop += 1
+                    chk.hist['sum_of_pairs alone: ' + ('talign.score_profile' if plain else 'calign.score_profile')] += 1
+                    if o != 'S ' + f2b(real):
+                        if plain:
+                            # refinement cannot run on an object without sonority profiles (_iter always calls the calign profile
+                            # aligner), so talign's variant never decides a roll-back: a difference is noted, it is no verdict on C11
+                            chk.hist['NOTE talign.score_profile differs from the model (display only; outside the passes C11 speaks of)'] += 1
+                        else:
+                            bad_sop.append((seqs, 'prog_align', {'plain': plain}, [], gw2, o, 'S ' + f2b(real) + ' gop=%r' % gop2))
+            except Exception as ex:  # noqa
+                bad_sop.append((seqs, 'prog_align', {}, [], 'tie raised %s: %s' % (type(ex).__name__, str(ex)[:80]), '', ''))
     drv.close()
     if want == 'C04':
         chk.obligation('correspondence:profile merge steps == Lean mergeBlocks (observed blocks + observed profile alignment)', 'correspondence',
@@ -306,14 +362,17 @@ def run_multiple(chk, want):
     if want == 'C11':
         chk.obligation('correspondence:end-of-pass decision of _iter == Lean iterFinal (same gap weight on both sides, exact restore)', 'correspondence',
                        not bad_iter, 'passes=%d mismatches=%d %s' % (npass, len(bad_iter), str(bad_iter[0])[:200] if bad_iter else ''))
+    if want == 'C11':
+        chk.obligation('correspondence:sum_of_pairs / score_profile (calign and talign variants) == Lean sumOfPairs bit for bit, and the whole _iter(check=final) pass == Lean iterPass on the observed candidate',
+                       'correspondence', not bad_sop, 'evaluations=%d mismatches=%d %s' % (nsop, len(bad_sop), str(bad_sop[0])[:400] if bad_sop else ''))
     chk.obligation('oracle:%s statement on Multiple objects' % want, 'correspondence', not fails, 'alignments=%d failures=%d' % (n, len(fails)))
     fails.sort(key=lambda f: sum(map(len, f[0])))
     for f in fails[:2]:
         chk.violation('Multiple(%r).%s(%r) then %r: %s' % (f[0], f[1], f[2], f[3], f[4]),
                       {'kind': 'multiple', 'seqs': f[0], 'method': f[1], 'kw': f[2], 'calls': f[3], 'why': f[4]})
-    if (bad_merge or bad_iter or bad_prog or bad_split or bad_upd) and not fails:
+    if (bad_merge or bad_iter or bad_prog or bad_split or bad_upd or bad_sop) and not fails:
         chk.violation('merge / end-of-pass step differs from the model; oracle found no failing input',
-                      {'kind': 'multiple-model', 'detail': str((bad_merge or bad_iter or bad_prog or bad_split or bad_upd)[0])[:2000], 'broken': 'correspondence'}, found_input=False)
+                      {'kind': 'multiple-model', 'detail': str((bad_merge or bad_iter or bad_prog or bad_split or bad_upd or bad_sop)[0])[:2000], 'broken': 'correspondence'}, found_input=False)
     chk.sample({'seqs': seqs, 'alm_matrix': [' '.join(r) for r in msa.alm_matrix]}, limit=2)
 
 
